@@ -377,7 +377,7 @@ impl<'a> Gen<'a> {
     }
 
     fn undefined_name(&mut self) -> String {
-        self.rng.pick(&["nope", "missing_var", "undefined_x", "user.nope", "m.absent", "nope.deeper", "loop.index", "loop.last"]).to_string()
+        self.rng.pick(&["nope", "missing_var", "undefined_x", "user.nope", "m.absent", "nope.deeper", "loop.index", "loop.last", "__tera_loop_zz", "__tera_loop_index1", "__tera_context.zz"]).to_string()
     }
 
     // ---------------------------------------------------------------- expressions
